@@ -1068,7 +1068,8 @@ static void CodeRESTORE(Word Index) {
 
         Old            = FirstSaveState;
         FirstSaveState = Old->Next;
-        if (Old->SavePC != ActPC) {
+        /* the structure pseudo segment is only valid while its STRUCT is open */
+        if ((Old->SavePC != ActPC) && (Old->SavePC != StructSeg)) {
             ActPC     = Old->SavePC;
             DontPrint = True;
         }
